@@ -2,6 +2,7 @@ package types
 
 import (
 	"encoding/json"
+	"errors"
 	"github.com/LemoFoundationLtd/lemochain-core/common"
 	"github.com/LemoFoundationLtd/lemochain-core/common/hexutil"
 	"math/big"
@@ -99,6 +100,11 @@ func GetBox(txData []byte) (*Box, error) {
 	err := json.Unmarshal(txData, box)
 	if err != nil {
 		return nil, err
+	}
+	for _, subTx := range box.SubTxList {
+		if subTx == nil {
+			return nil, errors.New("box contains a null sub transaction")
+		}
 	}
 	return box, nil
 }
